@@ -158,11 +158,6 @@ theorem run_subset (s : Sem α) (evs : Evs α) : ∀ e' ∈ s.run evs, ∀ p ∈
       subst he'; cases hp
     · exact ⟨e', (List.mem_filter.1 he').1, hp⟩
 
-theorem pdgSet_run (s : Sem α) (evs : Evs α) (h : PdgSet evs) : PdgSet (s.run evs) := by
-  intro e' he' p hp
-  obtain ⟨e, he, hpe⟩ := run_subset s evs e' he' p hp
-  exact h e he p hpe
-
 theorem etasDefined_run (s : Sem α) (evs : Evs α) (h : EtasDefined evs) : EtasDefined (s.run evs) := by
   intro e' he' p hp
   obtain ⟨e, he, hpe⟩ := run_subset s evs e' he' p hp
@@ -234,19 +229,13 @@ inductive Adm : Call α → Sem α → Prop
       Adm (.multiplicity (.tuple [.none, .num a])) (.evt (fun ev => decide (ofNat ev.length < a)))
   | energy (thr : α) (h : ¬ thr ≤ 0) : Adm (.energyCut thr) (.evt (fun ev => decide (thr ≤ totalEnergy ev)))
 
-/-- calls whose comparison `int(elem.pdg)` raises on a particle without PDG id -/
-def needsPdg : Call α → Bool
-  | .species _ => true
-  | .removeSpecies _ => true
-  | _ => false
-
 /-- the call evaluates `spacetime_rapidity()`, which raises for `|z| ≥ t` -/
 def needsEtas : Call α → Bool
   | .spacetimeRapidity _ => true
   | _ => false
 
 theorem adm_spec {c : Call α} {s : Sem α} (h : Adm ofNat c s) (evs : Evs α)
-    (hp : needsPdg c = true → PdgSet evs) (he : needsEtas c = true → EtasDefined evs) :
+    (he : needsEtas c = true → EtasDefined evs) :
     applyCall ofNat c evs = .ok (s.run evs) := by
   cases h with
   | charged => exact charged_spec ofNat evs
@@ -265,14 +254,14 @@ theorem adm_spec {c : Call α} {s : Sem α} (h : Adm ofNat c s) (evs : Evs α)
   | keepCharm => exact (class_specs ofNat evs).2.2.2.2.2.2.2.2.1
   | keepBottom => exact (class_specs ofNat evs).2.2.2.2.2.2.2.2.2.1
   | keepTop => exact (class_specs ofNat evs).2.2.2.2.2.2.2.2.2.2
-  | speciesScalar x => exact species_scalar_spec ofNat evs (hp rfl) x
-  | speciesList xs => exact (species_list_spec ofNat evs (hp rfl) xs).1
-  | speciesTuple xs => exact (species_list_spec ofNat evs (hp rfl) xs).2.1
-  | speciesArray xs => exact (species_list_spec ofNat evs (hp rfl) xs).2.2
-  | removeScalar x => exact remove_species_scalar_spec ofNat evs (hp rfl) x
-  | removeList xs => exact (remove_species_list_spec ofNat evs (hp rfl) xs).1
-  | removeTuple xs => exact (remove_species_list_spec ofNat evs (hp rfl) xs).2.1
-  | removeArray xs => exact (remove_species_list_spec ofNat evs (hp rfl) xs).2.2
+  | speciesScalar x => exact species_scalar_spec_all ofNat evs x
+  | speciesList xs => exact (species_list_spec_all ofNat evs xs).1
+  | speciesTuple xs => exact (species_list_spec_all ofNat evs xs).2.1
+  | speciesArray xs => exact (species_list_spec_all ofNat evs xs).2.2
+  | removeScalar x => exact remove_species_scalar_spec_all ofNat evs x
+  | removeList xs => exact (remove_species_list_spec_all ofNat evs xs).1
+  | removeTuple xs => exact (remove_species_list_spec_all ofNat evs xs).2.1
+  | removeArray xs => exact (remove_species_list_spec_all ofNat evs xs).2.2
   | statusScalar x => exact status_scalar_spec ofNat evs x
   | statusList xs => exact (status_list_spec ofNat evs xs).1
   | statusTuple xs => exact (status_list_spec ofNat evs xs).2.1
@@ -300,23 +289,21 @@ inductive AdmChain : List (Call α) → List (Sem α) → Prop
   | cons {c : Call α} {s : Sem α} {cs : List (Call α)} {ss : List (Sem α)}
       (h : Adm ofNat c s) (t : AdmChain cs ss) : AdmChain (c :: cs) (s :: ss)
 
-/-- admissibility of the data for a chain: particles have a PDG id if a species filter occurs, a defined
-space-time rapidity if that cut occurs -/
+/-- admissibility of the data for a chain: particles have a defined space-time rapidity (`|z| < t`, otherwise the
+documented `ValueError`) if that cut occurs.  (Particles without PDG id need no exclusion any more: since
+/repo 9f9a2e0 the species filters drop them — `species_*_spec_all` of Props/C03.) -/
 def DataOK (calls : List (Call α)) (evs : Evs α) : Prop :=
-  ((∃ c ∈ calls, needsPdg c = true) → PdgSet evs) ∧ ((∃ c ∈ calls, needsEtas c = true) → EtasDefined evs)
+  (∃ c ∈ calls, needsEtas c = true) → EtasDefined evs
 
 theorem chain_ok {calls : List (Call α)} {ss : List (Sem α)} (h : AdmChain ofNat calls ss) (evs : Evs α)
     (hd : DataOK calls evs) : chain ofNat calls evs = .ok (runAll ss evs) := by
   induction h generalizing evs with
   | nil => rfl
   | @cons c s cs ss hc _ ih =>
-    have h1 := adm_spec ofNat hc evs (fun hn => hd.1 ⟨c, by simp, hn⟩) (fun hn => hd.2 ⟨c, by simp, hn⟩)
+    have h1 := adm_spec ofNat hc evs (fun hn => hd ⟨c, by simp, hn⟩)
     have hd' : DataOK cs (s.run evs) := by
-      constructor
-      · rintro ⟨c', hc', hn⟩
-        exact pdgSet_run s evs (hd.1 ⟨c', by simp [hc'], hn⟩)
-      · rintro ⟨c', hc', hn⟩
-        exact etasDefined_run s evs (hd.2 ⟨c', by simp [hc'], hn⟩)
+      rintro ⟨c', hc', hn⟩
+      exact etasDefined_run s evs (hd ⟨c', by simp [hc'], hn⟩)
     have := ih (s.run evs) hd'
     simp only [chain, List.foldlM_cons, applyRd, h1] at this ⊢
     exact this
@@ -324,13 +311,9 @@ theorem chain_ok {calls : List (Call α)} {ss : List (Sem α)} (h : AdmChain ofN
 omit [LinearOrder α] [AddCommGroup α] [IsOrderedAddMonoid α] in
 theorem dataOK_single {calls : List (Call α)} {evs : Evs α} (hd : DataOK calls evs) (e : Ev α) (he : e ∈ evs) :
     DataOK calls [e] := by
-  constructor
-  · intro hn e' he' p hp
-    simp only [List.mem_singleton] at he'; subst he'
-    exact hd.1 hn e' he p hp
-  · intro hn e' he' p hp
-    simp only [List.mem_singleton] at he'; subst he'
-    exact hd.2 hn e' he p hp
+  intro hn e' he' p hp
+  simp only [List.mem_singleton] at he'; subst he'
+  exact hd hn e' he p hp
 
 end adm
 
@@ -415,9 +398,7 @@ theorem objCtor_ok {calls : List (Call α)} {ss : List (Sem α)} (h : AdmChain o
   | cons e es ih =>
     have h1 := chain_ok ofNat h [e] (dataOK_single hd e (by simp))
     have hd' : DataOK calls es := by
-      constructor
-      · intro hn e' he' p hp; exact hd.1 hn e' (by simp [he']) p hp
-      · intro hn e' he' p hp; exact hd.2 hn e' (by simp [he']) p hp
+      intro hn e' he' p hp; exact hd hn e' (by simp [he']) p hp
     rw [List.mapM_cons, h1, runAll_single_eq, ih hd']
     rfl
 
@@ -444,7 +425,7 @@ theorem methods_ok {calls : List (Call α)} {ss : List (Sem α)} (h : AdmChain o
   | nil => exact ⟨H0, rfl, rfl, hb⟩
   | @cons c s cs ss hc _ ih =>
     obtain ⟨hne, rows, hrows, hcol⟩ := hb
-    have h1 := adm_spec ofNat hc H0.events (fun hn => hd.1 ⟨c, by simp, hn⟩) (fun hn => hd.2 ⟨c, by simp, hn⟩)
+    have h1 := adm_spec ofNat hc H0.events (fun hn => hd ⟨c, by simp, hn⟩)
     have hrne : s.run H0.events ≠ [] := run_ne_nil s _ hne
     obtain ⟨r0, rs, hr0⟩ : ∃ r0 rs, rows = r0 :: rs := by
       cases rows with
@@ -465,11 +446,8 @@ theorem methods_ok {calls : List (Call α)} {ss : List (Sem α)} (h : AdmChain o
       rfl
     have hb1 : BookedH H1 := ⟨hrne, _, rfl, recount_col r0.1 _⟩
     have hd1 : DataOK cs H1.events := by
-      constructor
-      · rintro ⟨c', hc', hn⟩
-        exact pdgSet_run s _ (hd.1 ⟨c', by simp [hc'], hn⟩)
-      · rintro ⟨c', hc', hn⟩
-        exact etasDefined_run s _ (hd.2 ⟨c', by simp [hc'], hn⟩)
+      rintro ⟨c', hc', hn⟩
+      exact etasDefined_run s _ (hd ⟨c', by simp [hc'], hn⟩)
     obtain ⟨H, hm, he, hbH⟩ := ih H1 hb1 hd1
     refine ⟨H, ?_, he, hbH⟩
     simp only [methods, List.foldlM_cons, hstep, bind, Except.bind] at hm ⊢
